@@ -40,6 +40,32 @@ func checkC08(c ArgvCase, st *evid.Stats) error {
 	}
 	m := Model(c.Spec, c.Argv)
 	if m.Unspecified != "" {
+		// Which value a value-taking letter inside a bundle receives is unspecified; that an undeclared letter
+		// later in the same bundle is an unknown option is not. Judged only where one unknown mode is in force
+		// everywhere and nothing stops interpretation early.
+		if len(m.MustRemain) > 0 && uniformUnknownNoStop(c.Spec, c.Argv) {
+			out := Run(c.Spec, c.Argv, RunOpts{})
+			if out.Panic != "" {
+				return failf("panic: %s", out.Panic)
+			}
+			tok := c.Argv[m.MustRemain[0]]
+			st.Class("unknown-letter-after-a-value-taking-letter-in-one-bundle/" + unkNames[c.Spec.UnknownMode])
+			switch c.Spec.UnknownMode {
+			case UnkFail:
+				if !out.ParseFailed {
+					return failf("Fail mode: Parse succeeded (remaining %s) although token %q holds the undeclared option %q; %s", q(out.Remaining), tok, m.MustRemainName, describeCase(c.Spec, c.Argv))
+				}
+			case UnkWarn:
+				if !out.ParseFailed && !strings.Contains(out.Writer, "'"+m.MustRemainName+"'") {
+					return failf("Warn mode: Writer output %q does not mention the undeclared option %q of token %q; %s", out.Writer, m.MustRemainName, tok, describeCase(c.Spec, c.Argv))
+				}
+				fallthrough
+			case UnkPass:
+				if !out.ParseFailed && !contains(out.Remaining, tok) {
+					return failf("%s mode: token %q holding an unknown option is missing from remaining %s; %s", unkNames[c.Spec.UnknownMode], tok, q(out.Remaining), describeCase(c.Spec, c.Argv))
+				}
+			}
+		}
 		st.Exclude("unspecified: " + m.Unspecified)
 		return nil
 	}
@@ -92,6 +118,25 @@ func checkC08(c ArgvCase, st *evid.Stats) error {
 		}
 	}
 	return nil
+}
+
+// uniformUnknownNoStop: every level has the root's unknown mode, no level has require-order, and the command line
+// names neither the built-in help command (created with fresh settings) nor a terminator.
+func uniformUnknownNoStop(p *ProgSpec, argv []string) bool {
+	if p.RequireOrder {
+		return false
+	}
+	for _, l := range p.Levels().AllLevels() {
+		if l.UnknownMode != p.UnknownMode || l.RequireOrder {
+			return false
+		}
+	}
+	for _, a := range argv {
+		if a == "help" || a == "--" {
+			return false
+		}
+	}
+	return true
 }
 
 var propC08 = &Prop[ArgvCase]{ID: "C08", Sub: "unknown",
